@@ -1,6 +1,1536 @@
-//! Monitor for C45 (see /verif/DESIGN.md §5 C45).
-use vcommon::Args;
+//! Monitor for C45 "GLV vaults keep their composition and price in their own favour"
+//! (see /verif/DESIGN.md §5 C45).
+//!
+//! Everything runs through the real instructions in `hostsvm`. Per shard one random world (2–4
+//! markets with the GLV's long/short tokens, 1–3 markets with other tokens, random funding, prices
+//! with `min < max` spreads, optionally open positions and per-market PnL-cap configs) and a random
+//! history of GLV operations. Oracles:
+//!
+//! 1. composition — `insert_glv_market` / `initialize_glv` must not succeed with a market whose long /
+//!    short token differs from the GLV's; after every successful instruction every market listed in
+//!    the GLV account has the GLV's tokens;
+//! 2. caps — after every *executed* GLV deposit the recorded balance of that market token respects the
+//!    configured `max_amount` and `max_value`; the value is recomputed as the program defines it
+//!    (`balance * pool_value(MaxAfterDeposit, maximize = true) / supply`, floor) independently: BigInt
+//!    from the market account + the published prices when the market has no positions, and through
+//!    the program's `get_market_token_value` view (which does not go through any GLV code) otherwise;
+//! 3. favour — (a) the vault value used by a deposit equals the independently recomputed *maximized*
+//!    value, the one used by a withdrawal the *minimized* one; on one and the same state the value used
+//!    by a deposit is >= the value used by a withdrawal; (b) twin experiment on a cloned world: deposit
+//!    immediately followed by the withdrawal of all GLV tokens minted, at the same prices, never burns
+//!    more market tokens out of the vault than the deposit put in.
+use crate::world::{
+    exchange::{load, OrderKind, OrderReq},
+    glv::{ata22, find_events, GlvInfo},
+    World, UNIT,
+};
+use anchor_lang::prelude::Pubkey;
+use gmsol_model::{Balance, PoolKind};
+use gmsol_store::{
+    events::{GlvPricing, GlvPricingKind},
+    states::{
+        common::action::ActionState,
+        glv::{GlvMarketFlag, UpdateGlvParams},
+        Market,
+    },
+    CoreError,
+};
+use hostsvm::{token, TxError, TxMeta};
+use std::collections::BTreeMap;
+use vcommon::{
+    big::{b, div_floor},
+    json,
+    serde_json,
+    monitor::run_shards,
+    num_bigint::BigInt,
+    num_traits::{Signed, Zero},
+    Args, Monitor, Rng,
+};
 
-pub fn run(_args: &Args) -> Option<i32> {
-    None
+// ------------------------------------------------------------------------------------------------
+// World description
+
+/// (name, decimals, precision, synthetic, base price in ticks of 10^-precision USD)
+const TOKENS: &[(&str, u8, u8, bool, u64)] = &[
+    ("BTC", 8, 2, true, 6_000_000),
+    ("ETH", 8, 2, true, 300_000),
+    ("DOGE", 8, 6, true, 100_000),
+    ("SOL", 9, 4, false, 1_500_000),
+    ("WBTC", 8, 2, false, 6_000_000),
+    ("USDC", 6, 6, false, 1_000_000),
+    ("USDT", 6, 6, false, 1_000_000),
+];
+const T_BTC: usize = 0;
+const T_ETH: usize = 1;
+const T_DOGE: usize = 2;
+const T_SOL: usize = 3;
+const T_WBTC: usize = 4;
+const T_USDC: usize = 5;
+const T_USDT: usize = 6;
+
+const PNL_DEPOSIT: &str = "max_after_deposit";
+
+#[derive(Clone, Copy, Debug)]
+struct Ticks {
+    bid: u64,
+    mid: u64,
+    ask: u64,
+}
+
+#[derive(Clone, Copy, Debug, PartialEq, Eq)]
+enum Mismatch {
+    Swapped,
+    OtherShort,
+    OtherLong,
+    Both,
+}
+
+struct Ctx {
+    shard: u64,
+    w: World,
+    glv: GlvInfo,
+    gl: usize,
+    gs: usize,
+    /// market index -> Some(kind) if its tokens differ from the GLV's.
+    mismatch: Vec<Option<Mismatch>>,
+    ticks: Vec<Ticks>,
+    /// market index -> an order was ever sent to it (positions may exist).
+    touched_by_orders: Vec<bool>,
+    /// market index -> deposit PnL cap configured below the withdrawal PnL cap (either side).
+    dep_cap_below_wd_cap: Vec<bool>,
+    users: Vec<Pubkey>,
+    lp: Pubkey,
+    position_world: bool,
+    hist: Vec<String>,
+    step: u64,
+}
+
+fn code_of(e: &TxError) -> Option<u32> {
+    e.custom_code()
+}
+
+fn is_core(e: &TxError, c: CoreError) -> bool {
+    code_of(e) == Some(u32::from(c))
+}
+
+fn err_class(e: &TxError) -> String {
+    match e {
+        TxError::Program(p) => match e.custom_code() {
+            Some(c) => format!("custom_{c}"),
+            None => format!("program_{p:?}").chars().take(40).collect(),
+        },
+        TxError::Panic(_) => "panic".into(),
+        TxError::Runtime(r) => format!("runtime_{}", r.split_whitespace().next().unwrap_or("")),
+    }
+}
+
+fn pow10(e: u32) -> u128 {
+    10u128.pow(e)
+}
+
+impl Ctx {
+    fn note(&mut self, s: String) {
+        self.hist.push(format!("#{} {}", self.step, s));
+    }
+
+    fn unit_price(&self, tok: usize, maximize: bool) -> BigInt {
+        let (_, d, p, _, _) = TOKENS[tok];
+        let t = if maximize { self.ticks[tok].ask } else { self.ticks[tok].bid };
+        b(t) * b(pow10(20 - d as u32 - p as u32))
+    }
+
+    /// Publish the current ticks of one token through the real chainlink-feed instruction.
+    fn publish(&mut self, tok: usize) -> bool {
+        let (_, _, p, _, _) = TOKENS[tok];
+        let k = pow10(18 - p as u32);
+        let t = self.ticks[tok];
+        self.w.set_price(tok, t.bid as u128 * k, t.mid as u128 * k, t.ask as u128 * k).is_ok()
+    }
+
+    fn publish_all(&mut self) {
+        for t in 0..TOKENS.len() {
+            if !self.publish(t) {
+                panic!("harness: publishing price of {} failed", TOKENS[t].0);
+            }
+        }
+    }
+
+    fn glv_markets(&self, w: &World) -> Vec<usize> {
+        w.glv_market_tokens(&self.glv.glv)
+            .iter()
+            .filter_map(|mt| w.markets.iter().position(|m| m.market_token == *mt))
+            .collect()
+    }
+
+    fn witness(&self, extra: serde_json::Value) -> serde_json::Value {
+        let prices: Vec<_> = TOKENS
+            .iter()
+            .zip(self.ticks.iter())
+            .map(|(t, k)| json!({"token": t.0, "decimals": t.1, "precision": t.2, "bid_ticks": k.bid, "mid_ticks": k.mid, "ask_ticks": k.ask}))
+            .collect();
+        let markets: Vec<_> = self
+            .w
+            .markets
+            .iter()
+            .enumerate()
+            .map(|(i, m)| json!({"i": i, "name": m.name, "mismatch": format!("{:?}", self.mismatch[i])}))
+            .collect();
+        json!({
+            "shard": self.shard,
+            "step": self.step,
+            "glv_long": TOKENS[self.gl].0,
+            "glv_short": TOKENS[self.gs].0,
+            "position_world": self.position_world,
+            "markets": markets,
+            "prices": prices,
+            "glv_state": glv_state_json(self, &self.w),
+            "detail": extra,
+            "history": self.hist,
+            "replay": "rerun `store-mon C45` with the same VERIF_SEED and tier; the shard is deterministic",
+        })
+    }
+}
+
+
+fn glv_state_json(ctx: &Ctx, w: &World) -> serde_json::Value {
+    let Some(g) = w.load_glv(&ctx.glv.glv) else {
+        return json!(null);
+    };
+    let supply = token::mint_supply(&w.svm, &ctx.glv.glv_token).unwrap_or(0);
+    let ms: Vec<_> = g
+        .market_tokens()
+        .map(|mt| {
+            let c = g.market_config(&mt).expect("listed");
+            let idx = w.markets.iter().position(|m| m.market_token == mt);
+            json!({
+                "market": idx,
+                "balance": c.balance().to_string(),
+                "max_amount": c.max_amount().to_string(),
+                "max_value": c.max_value().to_string(),
+                "deposit_allowed": c.get_flag(GlvMarketFlag::IsDepositAllowed),
+                "market_token_supply": token::mint_supply(&w.svm, &mt).unwrap_or(0).to_string(),
+            })
+        })
+        .collect();
+    json!({"glv_supply": supply.to_string(), "markets": ms})
+}
+
+// ------------------------------------------------------------------------------------------------
+// Independent valuation
+
+/// Signed pool value and market-token supply.
+#[derive(Clone, Debug, PartialEq, Eq)]
+struct Pv {
+    p: BigInt,
+    s: BigInt,
+}
+
+impl Pv {
+    /// `floor(amount * pool_value / supply)`; `None` if the pool value is negative or the supply zero.
+    fn value(&self, amount: u64) -> Option<BigInt> {
+        if self.p.is_negative() || self.s.is_zero() {
+            return None;
+        }
+        Some(div_floor(&(b(amount) * &self.p), &self.s))
+    }
+}
+
+/// Exact pool value from the market account and the published prices; only for markets without open
+/// interest, position-impact pool and borrowing (then `pool value = Σ pool amount × picked price`).
+fn pv_bigint(ctx: &Ctx, w: &World, market: usize, maximize: bool) -> Option<Pv> {
+    let info = &w.markets[market];
+    let m: Market = load(&w.svm, &info.market)?;
+    for k in [
+        PoolKind::OpenInterestForLong,
+        PoolKind::OpenInterestForShort,
+        PoolKind::OpenInterestInTokensForLong,
+        PoolKind::OpenInterestInTokensForShort,
+        PoolKind::PositionImpact,
+        PoolKind::TotalBorrowing,
+    ] {
+        let p = m.pool(k)?;
+        if p.long_amount().ok()? != 0 || p.short_amount().ok()? != 0 {
+            return None;
+        }
+    }
+    let pool = m.pool(PoolKind::Primary)?;
+    let (la, sa) = (pool.long_amount().ok()?, pool.short_amount().ok()?);
+    let p = b(la) * ctx.unit_price(info.long, maximize) + b(sa) * ctx.unit_price(info.short, maximize);
+    let s = b(token::mint_supply(&w.svm, &info.market_token)?);
+    Some(Pv { p, s })
+}
+
+/// Pool value through the program's own `get_market_token_value` view (simulation).
+fn pv_view(w: &mut World, market: usize, maximize: bool) -> Option<Pv> {
+    let mt = w.markets[market].market_token;
+    let e = w.view_market_token_value(mt, 0, PNL_DEPOSIT, maximize).ok()?;
+    Some(Pv { p: b(e.pool_value), s: b(e.supply) })
+}
+
+/// The pool value both ways; they must agree where both are available.
+fn pv(ctx: &Ctx, w: &mut World, market: usize, maximize: bool, m: &mut Monitor) -> Option<Pv> {
+    let a = pv_bigint(ctx, w, market, maximize);
+    let v = pv_view(w, market, maximize);
+    match (a, v) {
+        (Some(a), Some(v)) => {
+            if a == v {
+                m.count("pool_value_bigint_equals_program_view");
+                Some(a)
+            } else {
+                m.count("pool_value_bigint_vs_program_view_mismatch");
+                m.inconclusive(&format!(
+                    "harness pool-value model disagrees with get_market_token_value (market {market}, maximize {maximize}): {a:?} vs {v:?}"
+                ));
+                None
+            }
+        }
+        (None, Some(v)) => {
+            m.count("pool_value_from_program_view_only");
+            Some(v)
+        }
+        (Some(a), None) => {
+            m.count("pool_value_from_bigint_only");
+            Some(a)
+        }
+        (None, None) => {
+            m.count("pool_value_unavailable");
+            None
+        }
+    }
+}
+
+/// `Σ_i floor(balance_i × pool_value_i / supply_i)` over the GLV's markets with the given balances
+/// (taken from `balances`), pools / supplies taken from the world `w`.
+fn glv_value(ctx: &Ctx, w: &mut World, balances: &BTreeMap<usize, u64>, maximize: bool, m: &mut Monitor) -> Option<BigInt> {
+    let mut total = BigInt::zero();
+    for (mi, bal) in balances {
+        if *bal == 0 {
+            // The program still evaluates the pool value (and fails if that fails); a zero balance
+            // contributes zero.
+            continue;
+        }
+        let v = pv(ctx, w, *mi, maximize, m)?;
+        total += v.value(*bal)?;
+    }
+    Some(total)
+}
+
+fn balances_of(ctx: &Ctx, w: &World) -> BTreeMap<usize, u64> {
+    let mut out = BTreeMap::new();
+    if let Some(g) = w.load_glv(&ctx.glv.glv) {
+        for mt in g.market_tokens() {
+            if let Some(i) = w.markets.iter().position(|m| m.market_token == mt) {
+                out.insert(i, g.market_config(&mt).map(|c| c.balance()).unwrap_or(0));
+            }
+        }
+    }
+    out
+}
+
+fn glv_supply(ctx: &Ctx, w: &World) -> u64 {
+    token::mint_supply(&w.svm, &ctx.glv.glv_token).unwrap_or(0)
+}
+
+fn pricing_event(meta: &TxMeta, deposit: bool) -> Option<GlvPricing> {
+    find_events::<GlvPricing>(meta)
+        .into_iter()
+        .find(|e| matches!((&e.kind, deposit), (GlvPricingKind::Deposit, true) | (GlvPricingKind::Withdrawal, false)))
+}
+
+// ------------------------------------------------------------------------------------------------
+// Oracle 1: composition
+
+fn check_composition(ctx: &Ctx, w: &World, m: &mut Monitor, site: &str) {
+    let Some(g) = w.load_glv(&ctx.glv.glv) else {
+        return;
+    };
+    m.count("composition_checks");
+    let (gl, gs) = (w.tokens[ctx.gl].mint, w.tokens[ctx.gs].mint);
+    if *g.long_token() != gl || *g.short_token() != gs {
+        m.violation(
+            &format!("C45:{site}:glv_tokens_changed"),
+            ctx.witness(json!({"long": g.long_token().to_string(), "short": g.short_token().to_string()})),
+        );
+    }
+    for mt in g.market_tokens() {
+        let Some(mk) = load::<Market>(&w.svm, &w.market_of_token(&mt)) else {
+            m.violation(&format!("C45:{site}:glv_lists_unknown_market"), ctx.witness(json!({"market_token": mt.to_string()})));
+            continue;
+        };
+        let meta = mk.meta();
+        if meta.long_token_mint != *g.long_token() || meta.short_token_mint != *g.short_token() {
+            m.violation(
+                &format!("C45:{site}:glv_lists_market_with_other_tokens"),
+                ctx.witness(json!({"market_token": mt.to_string(), "market_long": meta.long_token_mint.to_string(), "market_short": meta.short_token_mint.to_string()})),
+            );
+        }
+    }
+}
+
+// ------------------------------------------------------------------------------------------------
+// World construction
+
+fn gen_ticks(rng: &mut Rng, base: u64) -> Ticks {
+    // mid within [0.4, 2.5] × base, spread 0 / one tick / up to 2 %.
+    let mid = ((base as u128 * rng.range(400, 2500) as u128) / 1000).max(10) as u64;
+    let half = match rng.below(6) {
+        0 => 0,
+        1 => 1,
+        2 => (mid / 10_000).max(1),
+        3 => (mid / 1000).max(1),
+        4 => (mid / 100).max(1),
+        _ => rng.range(0, (mid / 50).max(1)),
+    };
+    let bid = mid.saturating_sub(if rng.chance(1, 5) { 0 } else { half }).max(1);
+    let ask = mid + half;
+    Ticks { bid, mid, ask }
+}
+
+fn whole(tok: usize) -> u64 {
+    10u64.pow(TOKENS[tok].1 as u32)
+}
+
+/// A "reasonable" pool funding amount for a token, in token units (log-uniform over ~3 decades).
+fn funding_amount(rng: &mut Rng, tok: usize, scale_milli: u64) -> u64 {
+    // target USD value 300 .. 100_000, at the *base* price
+    let usd = rng.log_u64(100_000).max(300) as u128 * scale_milli as u128 / 1000;
+    let (_, d, p, _, base) = TOKENS[tok];
+    // amount = usd / price = usd * 10^p / base ticks, in units of 10^d
+    let amt = usd * pow10(p as u32) * pow10(d as u32) / base as u128;
+    amt.clamp(1, 400_000_000_000) as u64
+}
+
+fn regular_deposit(w: &mut World, user: Pubkey, market: usize, long: u64, short: u64) -> Result<(), String> {
+    let d = w.create_deposit(user, market, long, short, None, None, &[], &[], 0).map_err(|(e, _)| format!("create_deposit: {e:?}"))?;
+    w.execute_deposit(d, true).map_err(|(e, _)| format!("execute_deposit: {e:?}"))?;
+    w.close_deposit(user, d).map_err(|(e, _)| format!("close_deposit: {e:?}"))?;
+    Ok(())
+}
+
+fn build(shard: u64, rng: &mut Rng, m: &mut Monitor) -> Ctx {
+    let mut w = World::bootstrap_store();
+    w.bootstrap_oracle();
+    for (name, d, p, syn, _) in TOKENS {
+        w.add_token(name, *d, *p, *syn);
+    }
+    // GLV token pair.
+    let (gl, gs) = match rng.below(10) {
+        0..=4 => (T_SOL, T_USDC),
+        5..=6 => (T_WBTC, T_USDC),
+        7..=8 => (T_SOL, T_USDT),
+        _ => (T_SOL, T_SOL),
+    };
+    let pure = gl == gs;
+    m.count(&format!("world_glv_pair_{}_{}", TOKENS[gl].0, TOKENS[gs].0));
+    let other_long = if gl == T_SOL { T_WBTC } else { T_SOL };
+    let other_short = if gs == T_USDC { T_USDT } else { T_USDC };
+    // Matching markets: 2–4 distinct index tokens.
+    let mut idx_tokens = vec![T_BTC, T_ETH, T_DOGE, T_SOL, T_WBTC];
+    rng.shuffle(&mut idx_tokens);
+    let n_match = rng.range(2, 4) as usize;
+    let mut mismatch: Vec<Option<Mismatch>> = vec![];
+    for it in idx_tokens.iter().take(n_match) {
+        w.add_market(*it, gl, gs);
+        mismatch.push(None);
+    }
+    // Mismatching markets: 1–3 of the four kinds.
+    let mut kinds = vec![Mismatch::OtherShort, Mismatch::OtherLong, Mismatch::Both];
+    if !pure {
+        kinds.push(Mismatch::Swapped);
+    }
+    rng.shuffle(&mut kinds);
+    let n_mis = rng.range(1, 3) as usize;
+    for k in kinds.iter().take(n_mis) {
+        let it = *rng.pick(&[T_BTC, T_ETH, T_DOGE, T_SOL]);
+        let (l, s) = match k {
+            Mismatch::Swapped => (gs, gl),
+            Mismatch::OtherShort => (gl, if pure { T_USDC } else { other_short }),
+            Mismatch::OtherLong => (other_long, gs),
+            Mismatch::Both => (other_long, if pure { T_USDC } else { other_short }),
+        };
+        w.add_market(it, l, s);
+        mismatch.push(Some(*k));
+    }
+    m.add("world_matching_markets", n_match as u64);
+    m.add("world_mismatching_markets", n_mis as u64);
+    let n_markets = w.markets.len();
+    let ticks: Vec<Ticks> = TOKENS.iter().map(|t| gen_ticks(rng, t.4)).collect();
+    let lp = w.add_user("lp");
+    let users = vec![w.add_user("alice"), w.add_user("bob")];
+    for u in users.iter().chain(std::iter::once(&lp)) {
+        for (i, t) in TOKENS.iter().enumerate() {
+            if !t.3 {
+                let mint = w.tokens[i].mint;
+                token::fund_ata(&mut w.svm, u, &mint, 1_000_000_000_000_000);
+            }
+        }
+    }
+    let position_world = !pure && rng.chance(2, 5);
+    if position_world {
+        m.count("world_with_positions");
+    }
+    let glv = w.glv_info(0);
+    let mut ctx = Ctx {
+        shard,
+        w,
+        glv,
+        gl,
+        gs,
+        mismatch,
+        ticks,
+        touched_by_orders: vec![false; n_markets],
+        dep_cap_below_wd_cap: vec![false; n_markets],
+        users,
+        lp,
+        position_world,
+        hist: vec![],
+        step: 0,
+    };
+    ctx.publish_all();
+    ctx.note(format!("world: glv=({},{}) markets={:?}", TOKENS[gl].0, TOKENS[gs].0, ctx.w.markets.iter().map(|x| x.name.clone()).collect::<Vec<_>>()));
+    // Fund the markets (every matching one, mismatching ones mostly) through real deposits.
+    for mi in 0..n_markets {
+        if ctx.mismatch[mi].is_some() && rng.chance(1, 3) {
+            continue;
+        }
+        let (l, s) = (ctx.w.markets[mi].long, ctx.w.markets[mi].short);
+        let scale = if rng.chance(1, 8) { 5 } else { 1000 };
+        let (la, sa) = (funding_amount(rng, l, scale), funding_amount(rng, s, scale));
+        let lp = ctx.lp;
+        if let Err(e) = regular_deposit(&mut ctx.w, lp, mi, la, sa) {
+            panic!("harness: funding market {mi} failed: {e}");
+        }
+        ctx.note(format!("fund market={mi} long={la} short={sa}"));
+    }
+    // Users acquire market tokens of the matching markets.
+    for ui in 0..ctx.users.len() {
+        for mi in 0..n_match {
+            let (l, s) = (ctx.w.markets[mi].long, ctx.w.markets[mi].short);
+            let (la, sa) = (funding_amount(rng, l, 100), funding_amount(rng, s, 100));
+            let u = ctx.users[ui];
+            match regular_deposit(&mut ctx.w, u, mi, la, sa) {
+                Ok(()) => ctx.note(format!("user{ui} deposit market={mi} long={la} short={sa}")),
+                Err(_) => m.count("setup_user_deposit_failed"),
+            }
+        }
+    }
+    // Hostile initialisation: a list containing a mismatching market must be refused.
+    {
+        let mut list: Vec<usize> = (0..n_match).filter(|_| rng.bool()).collect();
+        let mis: Vec<usize> = (n_match..n_markets).collect();
+        let bad = *rng.pick(&mis);
+        list.push(bad);
+        if list.len() == 1 && rng.bool() {
+            list.push(0);
+        }
+        m.eval();
+        match ctx.w.initialize_glv(7, &list) {
+            Ok(info) => {
+                // Only acceptable if, by coincidence, all listed markets share one token pair.
+                let first = &ctx.w.markets[list[0]];
+                let same = list.iter().all(|i| ctx.w.markets[*i].long == first.long && ctx.w.markets[*i].short == first.short);
+                if same {
+                    m.count("init_list_consistent_accepted");
+                } else {
+                    m.violation(
+                        "C45:initialize_glv:accepted_markets_with_different_tokens",
+                        ctx.witness(json!({"list": list, "glv": info.glv.to_string()})),
+                    );
+                }
+            }
+            Err((e, _)) => {
+                m.count("init_mixed_list_rejected");
+                m.count(&format!("init_mixed_list_rejected_{}", err_class(&e)));
+                m.nontrivial(format!("init-mixed:{:?}:{}", ctx.mismatch[bad], list.len()).as_bytes());
+            }
+        }
+    }
+    // The real GLV: a non-empty subset of the matching markets.
+    let mut initial: Vec<usize> = (0..n_match).filter(|_| rng.chance(2, 3)).collect();
+    if initial.is_empty() {
+        initial.push(rng.below(n_match as u64) as usize);
+    }
+    match ctx.w.initialize_glv(0, &initial) {
+        Ok(info) => ctx.glv = info,
+        Err((e, meta)) => panic!("harness: initialize_glv failed: {e:?} {:?}", meta.logs),
+    }
+    ctx.note(format!("initialize_glv markets={initial:?}"));
+    m.count("initialize_glv_ok");
+    check_composition(&ctx, &ctx.w, m, "initialize_glv");
+    for mi in initial {
+        if rng.chance(9, 10) {
+            let mt = ctx.w.markets[mi].market_token;
+            let glv = ctx.glv;
+            if ctx.w.toggle_glv_market_flag(&glv, mt, GlvMarketFlag::IsDepositAllowed, true).is_err() {
+                panic!("harness: enabling deposits failed");
+            }
+        }
+    }
+    if rng.bool() {
+        // No waiting between shifts.
+        let glv = ctx.glv;
+        let _ = ctx.w.update_glv_config(&glv, UpdateGlvParams { shift_min_interval_secs: Some(0), ..Default::default() });
+        ctx.note("update_glv_config shift_min_interval_secs=0".into());
+    }
+    if position_world {
+        // Per-market PnL caps (deposit / withdrawal) and positions.
+        for mi in 0..n_match {
+            if rng.bool() {
+                let mut caps = [0u128; 4];
+                for (i, key) in [
+                    "max_pnl_factor_for_long_deposit",
+                    "max_pnl_factor_for_short_deposit",
+                    "max_pnl_factor_for_long_withdrawal",
+                    "max_pnl_factor_for_short_withdrawal",
+                ]
+                .iter()
+                .enumerate()
+                {
+                    let f = *rng.pick(&[5u128, 20, 60, 95]) * UNIT / 100;
+                    caps[i] = f;
+                    if ctx.w.update_market_config(mi, key, f).is_err() {
+                        m.count("setup_update_market_config_failed");
+                        caps[i] = 60 * UNIT / 100;
+                    }
+                }
+                ctx.dep_cap_below_wd_cap[mi] = caps[0] < caps[2] || caps[1] < caps[3];
+                ctx.note(format!("market {mi} pnl caps dep=({},{}) wd=({},{}) /UNIT%", caps[0] * 100 / UNIT, caps[1] * 100 / UNIT, caps[2] * 100 / UNIT, caps[3] * 100 / UNIT));
+            }
+            if rng.chance(3, 4) {
+                open_position(&mut ctx, rng, m, mi);
+            }
+        }
+    }
+    ctx
+}
+
+fn open_position(ctx: &mut Ctx, rng: &mut Rng, m: &mut Monitor, mi: usize) {
+    let user = ctx.users[rng.below(ctx.users.len() as u64) as usize];
+    let is_long = rng.bool();
+    let collateral_long = rng.chance(1, 4);
+    let mk = ctx.w.markets[mi].clone();
+    let ctok = if collateral_long { mk.long } else { mk.short };
+    // collateral worth 200 .. 20_000 USD (at base prices), leverage 1.5 .. 8
+    let collateral = funding_amount(rng, ctok, 200).max(1);
+    let (_, d, p, _, base) = TOKENS[ctok];
+    let usd = collateral as u128 * base as u128 / pow10(p as u32) / pow10(d as u32);
+    let lev10 = rng.range(15, 80) as u128;
+    let mut req = OrderReq::new(OrderKind::MarketIncrease, mi, is_long, collateral_long);
+    req.initial_collateral_delta_amount = collateral;
+    req.size_delta_value = usd.max(2) * lev10 * UNIT / 10;
+    ctx.touched_by_orders[mi] = true;
+    m.count("position_open_attempts");
+    match ctx.w.create_order(user, &req) {
+        Ok(o) => {
+            match ctx.w.execute_order(o, true) {
+                Ok(_) => {
+                    m.count("position_open_ok");
+                    ctx.note(format!("open position market={mi} long={is_long} collateral={collateral}(long_token={collateral_long}) size_usd_x10={}", usd * lev10));
+                }
+                Err((e, _)) => {
+                    m.count(&format!("position_open_failed_{}", err_class(&e)));
+                }
+            }
+            let _ = ctx.w.close_order(user, o);
+        }
+        Err((e, _)) => m.count(&format!("position_create_failed_{}", err_class(&e))),
+    }
+}
+
+// ------------------------------------------------------------------------------------------------
+// Operations
+
+fn op_insert(ctx: &mut Ctx, rng: &mut Rng, m: &mut Monitor) {
+    let listed = ctx.glv_markets(&ctx.w);
+    let n = ctx.w.markets.len();
+    // Mostly markets that are not listed; sometimes one that already is.
+    let cands: Vec<usize> = (0..n).filter(|i| !listed.contains(i)).collect();
+    let mi = if cands.is_empty() || rng.chance(1, 10) { rng.below(n as u64) as usize } else { *rng.pick(&cands) };
+    let already = listed.contains(&mi);
+    let glv = ctx.glv;
+    m.eval();
+    m.count("op_insert_glv_market");
+    let r = ctx.w.insert_glv_market(&glv, mi);
+    let kind = ctx.mismatch[mi];
+    ctx.note(format!("insert_glv_market market={mi} mismatch={kind:?} already={already} -> {}", r.as_ref().map(|_| "ok".to_string()).unwrap_or_else(|(e, _)| err_class(e))));
+    match (r, kind) {
+        (Ok(_), Some(k)) => {
+            m.violation(
+                "C45:insert_glv_market:accepted_market_with_other_tokens",
+                ctx.witness(json!({"market": mi, "mismatch": format!("{k:?}")})),
+            );
+        }
+        (Ok(_), None) => {
+            m.count("insert_matching_ok");
+            if already {
+                m.count("insert_already_listed_ok_unexpected");
+            }
+            let mt = ctx.w.markets[mi].market_token;
+            if rng.chance(9, 10) {
+                let _ = ctx.w.toggle_glv_market_flag(&glv, mt, GlvMarketFlag::IsDepositAllowed, true);
+            }
+        }
+        (Err((e, _)), Some(k)) => {
+            m.count("insert_mismatching_rejected");
+            m.count(&format!("insert_mismatching_rejected_{k:?}"));
+            m.count(&format!("insert_mismatching_rejected_{}", err_class(&e)));
+            m.nontrivial(format!("insert-mismatch:{k:?}:{}:{}", TOKENS[ctx.gl].0, TOKENS[ctx.gs].0).as_bytes());
+        }
+        (Err((e, _)), None) => {
+            if already {
+                m.count("insert_already_listed_rejected");
+            } else {
+                m.count("insert_matching_rejected");
+                m.count(&format!("insert_matching_rejected_{}", err_class(&e)));
+            }
+        }
+    }
+    check_composition(ctx, &ctx.w, m, "insert_glv_market");
+}
+
+fn op_remove(ctx: &mut Ctx, rng: &mut Rng, m: &mut Monitor) {
+    let listed = ctx.glv_markets(&ctx.w);
+    if listed.len() < 2 {
+        return;
+    }
+    let mi = *rng.pick(&listed);
+    let mt = ctx.w.markets[mi].market_token;
+    let glv = ctx.glv;
+    m.count("op_remove_glv_market");
+    if rng.chance(4, 5) {
+        let _ = ctx.w.toggle_glv_market_flag(&glv, mt, GlvMarketFlag::IsDepositAllowed, false);
+    }
+    let r = ctx.w.remove_glv_market(&glv, mi);
+    ctx.note(format!("remove_glv_market market={mi} -> {}", r.as_ref().map(|_| "ok".to_string()).unwrap_or_else(|(e, _)| err_class(e))));
+    match r {
+        Ok(_) => m.count("remove_ok"),
+        Err((e, _)) => {
+            m.count(&format!("remove_rejected_{}", err_class(&e)));
+            // keep deposits going
+            let _ = ctx.w.toggle_glv_market_flag(&glv, mt, GlvMarketFlag::IsDepositAllowed, true);
+        }
+    }
+    check_composition(ctx, &ctx.w, m, "remove_glv_market");
+}
+
+fn op_caps(ctx: &mut Ctx, rng: &mut Rng, m: &mut Monitor) {
+    let listed = ctx.glv_markets(&ctx.w);
+    if listed.is_empty() {
+        return;
+    }
+    let mi = *rng.pick(&listed);
+    let mt = ctx.w.markets[mi].market_token;
+    let bal = balances_of(ctx, &ctx.w).get(&mi).copied().unwrap_or(0);
+    let max_amount = match rng.below(5) {
+        0 => None,
+        1 => Some(0),
+        2 => Some(bal.saturating_add(rng.log_u64(1_000_000_000_000))),
+        3 => Some(rng.log_u64(u64::MAX)),
+        _ => Some(bal.saturating_mul(2).max(1)),
+    };
+    let max_value = match rng.below(5) {
+        0 => None,
+        1 => Some(0),
+        2 => Some(rng.log_u128(1_000_000 * UNIT)),
+        3 => Some(rng.log_u128(u128::MAX)),
+        _ => Some(rng.range(1, 100_000) as u128 * UNIT),
+    };
+    let glv = ctx.glv;
+    m.count("op_update_glv_market_config");
+    let r = ctx.w.update_glv_market_config(&glv, mt, max_amount, max_value);
+    ctx.note(format!("update_glv_market_config market={mi} max_amount={max_amount:?} max_value={max_value:?} -> {}", r.is_ok()));
+    if r.is_ok() {
+        m.count("update_glv_market_config_ok");
+    }
+    check_composition(ctx, &ctx.w, m, "update_glv_market_config");
+}
+
+fn op_toggle(ctx: &mut Ctx, rng: &mut Rng, m: &mut Monitor) {
+    let listed = ctx.glv_markets(&ctx.w);
+    if listed.is_empty() {
+        return;
+    }
+    let mi = *rng.pick(&listed);
+    let mt = ctx.w.markets[mi].market_token;
+    let enable = rng.chance(3, 4);
+    let glv = ctx.glv;
+    m.count("op_toggle_glv_market_flag");
+    let r = ctx.w.toggle_glv_market_flag(&glv, mt, GlvMarketFlag::IsDepositAllowed, enable);
+    ctx.note(format!("toggle_glv_market_flag market={mi} enable={enable} -> {}", r.is_ok()));
+    check_composition(ctx, &ctx.w, m, "toggle_glv_market_flag");
+}
+
+fn op_glv_config(ctx: &mut Ctx, rng: &mut Rng, m: &mut Monitor) {
+    let params = match rng.below(4) {
+        0 => UpdateGlvParams { shift_min_interval_secs: Some(*rng.pick(&[0u32, 1, 60, 3600])), ..Default::default() },
+        1 => UpdateGlvParams { shift_max_price_impact_factor: Some(rng.log_u128(UNIT)), ..Default::default() },
+        2 => UpdateGlvParams { shift_min_value: Some(rng.log_u128(1000 * UNIT)), ..Default::default() },
+        _ => UpdateGlvParams { min_tokens_for_first_deposit: Some(*rng.pick(&[0u64, 0, 1, 1_000_000])), ..Default::default() },
+    };
+    let glv = ctx.glv;
+    m.count("op_update_glv_config");
+    let r = ctx.w.update_glv_config(&glv, params);
+    ctx.note(format!("update_glv_config variant -> {}", r.is_ok()));
+    check_composition(ctx, &ctx.w, m, "update_glv_config");
+}
+
+fn op_prices(ctx: &mut Ctx, rng: &mut Rng, m: &mut Monitor) {
+    m.count("op_set_prices");
+    if rng.chance(1, 4) {
+        let secs = *rng.pick(&[1i64, 30, 600, 3700]);
+        ctx.w.svm.warp(secs);
+        ctx.note(format!("warp {secs}s"));
+        m.count("op_warp");
+        for t in 0..TOKENS.len() {
+            if rng.chance(1, 2) {
+                ctx.ticks[t] = gen_ticks(rng, TOKENS[t].4);
+            }
+        }
+        ctx.publish_all();
+    } else {
+        let t = rng.below(TOKENS.len() as u64) as usize;
+        ctx.ticks[t] = gen_ticks(rng, TOKENS[t].4);
+        if !ctx.publish(t) {
+            panic!("harness: price publication failed");
+        }
+    }
+    let desc: Vec<String> = ctx.ticks.iter().map(|k| format!("{}/{}/{}", k.bid, k.mid, k.ask)).collect();
+    ctx.note(format!("prices(ticks bid/mid/ask) {}", desc.join(" ")));
+}
+
+fn op_market_activity(ctx: &mut Ctx, rng: &mut Rng, m: &mut Monitor) {
+    let listed = ctx.glv_markets(&ctx.w);
+    if listed.is_empty() {
+        return;
+    }
+    let mi = *rng.pick(&listed);
+    let (l, s) = (ctx.w.markets[mi].long, ctx.w.markets[mi].short);
+    match rng.below(if ctx.position_world { 4 } else { 3 }) {
+        0 => {
+            let (la, sa) = (if rng.bool() { funding_amount(rng, l, 50) } else { 0 }, if rng.bool() { funding_amount(rng, s, 50) } else { 0 });
+            if la == 0 && sa == 0 {
+                return;
+            }
+            let lp = ctx.lp;
+            let ok = regular_deposit(&mut ctx.w, lp, mi, la, sa).is_ok();
+            m.count(if ok { "activity_deposit_ok" } else { "activity_deposit_failed" });
+            ctx.note(format!("activity deposit market={mi} long={la} short={sa} ok={ok}"));
+        }
+        1 => {
+            let lp = ctx.lp;
+            let mt = ctx.w.markets[mi].market_token;
+            let have = token::token_amount(&ctx.w.svm, &token::ata(&lp, &mt)).unwrap_or(0);
+            let amt = rng.log_u64(have / 4);
+            if amt == 0 {
+                return;
+            }
+            let ok = match ctx.w.create_withdrawal(lp, mi, amt, None, None, &[], &[], 0, 0) {
+                Ok(wd) => {
+                    let ok = ctx.w.execute_withdrawal(wd, true).is_ok();
+                    let _ = ctx.w.close_withdrawal(lp, wd);
+                    ok
+                }
+                Err(_) => false,
+            };
+            m.count(if ok { "activity_withdrawal_ok" } else { "activity_withdrawal_failed" });
+            ctx.note(format!("activity withdrawal market={mi} amount={amt} ok={ok}"));
+        }
+        2 => {
+            if l == s {
+                return;
+            }
+            // swap long -> short or back through this market
+            let user = ctx.users[rng.below(ctx.users.len() as u64) as usize];
+            let to_long = rng.bool();
+            let pay = if to_long { s } else { l };
+            let mut req = OrderReq::new(OrderKind::MarketSwap, mi, true, to_long);
+            req.initial_collateral_token = Some(ctx.w.tokens[pay].mint);
+            req.initial_collateral_delta_amount = funding_amount(rng, pay, 20);
+            req.swap_path = vec![ctx.w.markets[mi].market_token];
+            let ok = match ctx.w.create_order(user, &req) {
+                Ok(o) => {
+                    let ok = ctx.w.execute_order(o, true).is_ok();
+                    let _ = ctx.w.close_order(user, o);
+                    ok
+                }
+                Err(_) => false,
+            };
+            m.count(if ok { "activity_swap_ok" } else { "activity_swap_failed" });
+            ctx.note(format!("activity swap market={mi} to_long={to_long} amount={} ok={ok}", req.initial_collateral_delta_amount));
+        }
+        _ => open_position(ctx, rng, m, mi),
+    }
+}
+
+#[derive(Clone, Copy, Debug)]
+struct DepositPlan {
+    user: usize,
+    market: usize,
+    mt_amount: u64,
+    long: u64,
+    short: u64,
+}
+
+fn plan_deposit(ctx: &Ctx, w: &World, rng: &mut Rng) -> Option<DepositPlan> {
+    let listed = ctx.glv_markets(w);
+    if listed.is_empty() {
+        return None;
+    }
+    let market = *rng.pick(&listed);
+    let user = rng.below(ctx.users.len() as u64) as usize;
+    let mk = &w.markets[market];
+    let have = token::token_amount(&w.svm, &token::ata(&ctx.users[user], &mk.market_token)).unwrap_or(0);
+    let kind = rng.below(8);
+    let mt_amount = if kind <= 3 || kind == 7 {
+        match rng.below(5) {
+            0 => rng.range(1, 3).min(have),
+            1 => have / 2,
+            2 => rng.log_u64(have),
+            _ => rng.log_u64(have / 8),
+        }
+    } else {
+        0
+    };
+    let long = if matches!(kind, 4 | 6 | 7) { funding_amount(rng, mk.long, *rng.pick(&[1u64, 30, 300])) } else { 0 };
+    let short = if matches!(kind, 5 | 6 | 7) { funding_amount(rng, mk.short, *rng.pick(&[1u64, 30, 300])) } else { 0 };
+    if mt_amount == 0 && long == 0 && short == 0 {
+        return None;
+    }
+    Some(DepositPlan { user, market, mt_amount, long, short })
+}
+
+/// Outcome of a create + execute of a GLV deposit in world `w`.
+enum Exec {
+    NotCreated(TxError),
+    Failed(TxError, Pubkey),
+    Cancelled(TxMeta, Pubkey),
+    Executed(TxMeta, Pubkey),
+}
+
+fn run_deposit(glv: &GlvInfo, user: Pubkey, w: &mut World, plan: &DepositPlan, throw: bool) -> Exec {
+    let d = match w.create_glv_deposit(user, glv, plan.market, plan.mt_amount, plan.long, plan.short, 0, 0) {
+        Ok(d) => d,
+        Err((e, _)) => return Exec::NotCreated(e),
+    };
+    match w.execute_glv_deposit(d, throw) {
+        Err((e, _)) => Exec::Failed(e, d),
+        Ok(meta) => match w.glv_deposit_state(&d) {
+            Some(ActionState::Completed) => Exec::Executed(meta, d),
+            _ => Exec::Cancelled(meta, d),
+        },
+    }
+}
+
+fn op_glv_deposit(ctx: &mut Ctx, rng: &mut Rng, m: &mut Monitor) {
+    let Some(plan) = plan_deposit(ctx, &ctx.w, rng) else {
+        return;
+    };
+    m.count("op_glv_deposit");
+    let mi = plan.market;
+    let mt = ctx.w.markets[mi].market_token;
+    let glv = ctx.glv;
+    let bal0 = balances_of(ctx, &ctx.w).get(&mi).copied().unwrap_or(0);
+    // Boundary caps: for a market-token-only deposit the new balance (and its value) is known.
+    let mut expect: Option<bool> = None; // Some(true) = cap must not bind, Some(false) = cap must bind
+    if rng.chance(2, 5) {
+        let new_bal = bal0.saturating_add(plan.mt_amount);
+        let exact = plan.long == 0 && plan.short == 0;
+        let delta = *rng.pick(&[-2i64, -1, 0, 0, 1, 5]);
+        if rng.bool() {
+            let cap = (new_bal as i128 + delta as i128).clamp(1, u64::MAX as i128) as u64;
+            if ctx.w.update_glv_market_config(&glv, mt, Some(cap), Some(0)).is_ok() {
+                m.count("boundary_max_amount_configured");
+                ctx.note(format!("update_glv_market_config market={mi} max_amount={cap} max_value=0 (boundary {delta:+})"));
+                if exact {
+                    expect = Some(cap >= new_bal);
+                }
+            }
+        } else if let Some(v) = {
+            let mut w2 = ctx.w.clone();
+            pv(ctx, &mut w2, mi, true, m).and_then(|p| p.value(new_bal))
+        } {
+            let cap = &v + b(delta);
+            if cap > BigInt::zero() {
+                if let Some(cap) = vcommon::big::to_u128(&cap) {
+                    if ctx.w.update_glv_market_config(&glv, mt, Some(0), Some(cap)).is_ok() {
+                        m.count("boundary_max_value_configured");
+                        ctx.note(format!("update_glv_market_config market={mi} max_amount=0 max_value={cap} (boundary {delta:+})"));
+                        if exact {
+                            expect = Some(b(cap) >= v);
+                        }
+                    }
+                }
+            }
+        }
+    }
+    let throw = rng.chance(3, 4);
+    let pre_bal = balances_of(ctx, &ctx.w);
+    let user = ctx.users[plan.user];
+    let out = run_deposit(&glv, user, &mut ctx.w, &plan, throw);
+    let desc = format!("glv_deposit user{} market={mi} mt={} long={} short={} throw={throw}", plan.user, plan.mt_amount, plan.long, plan.short);
+    match out {
+        Exec::NotCreated(e) => {
+            m.count(&format!("glv_deposit_create_failed_{}", err_class(&e)));
+            ctx.note(format!("{desc} -> create failed {}", err_class(&e)));
+        }
+        Exec::Failed(e, d) => {
+            if is_core(&e, CoreError::ExceedMaxGlvMarketTokenBalanceAmount) {
+                m.count("cap_hit_max_amount");
+            } else if is_core(&e, CoreError::ExceedMaxGlvMarketTokenBalanceValue) {
+                m.count("cap_hit_max_value");
+            } else {
+                m.count(&format!("glv_deposit_execute_failed_{}", err_class(&e)));
+            }
+            if expect == Some(true) && (is_core(&e, CoreError::ExceedMaxGlvMarketTokenBalanceAmount) || is_core(&e, CoreError::ExceedMaxGlvMarketTokenBalanceValue)) {
+                m.count("boundary_cap_rejected_although_recomputation_within_cap");
+            }
+            if expect == Some(false) {
+                m.count("boundary_cap_rejected_as_expected");
+            }
+            ctx.note(format!("{desc} -> execute failed {}", err_class(&e)));
+            // still pending: the owner cancels
+            let r = ctx.w.close_glv_deposit(user, d);
+            m.count(if r.is_ok() { "glv_deposit_cancelled_by_owner" } else { "glv_deposit_cancel_failed" });
+        }
+        Exec::Cancelled(_, d) => {
+            m.count("glv_deposit_cancelled_on_execution_error");
+            if expect == Some(false) {
+                m.count("boundary_cap_rejected_as_expected");
+            }
+            ctx.note(format!("{desc} -> cancelled"));
+            let keeper = ctx.w.keeper;
+            let _ = ctx.w.close_glv_deposit(keeper, d);
+        }
+        Exec::Executed(meta, d) => {
+            m.count("glv_deposit_executed");
+            if plan.long != 0 || plan.short != 0 {
+                m.count("glv_deposit_executed_with_token_deposit");
+            }
+            if plan.mt_amount != 0 {
+                m.count("glv_deposit_executed_with_market_tokens");
+            }
+            let ev = pricing_event(&meta, true);
+            ctx.note(format!(
+                "{desc} -> executed {}",
+                ev.as_ref().map(|e| format!("in={} minted={} value={} in_value={} supply={}", e.input_amount, e.output_amount, e.value, e.input_value, e.supply)).unwrap_or_default()
+            ));
+            if expect == Some(true) {
+                m.count("boundary_cap_accepted_as_expected");
+            }
+            check_composition(ctx, &ctx.w, m, "execute_glv_deposit");
+            check_caps_after_deposit(ctx, m, mi, &plan, expect);
+            check_deposit_valuation(ctx, m, mi, &pre_bal, ev.as_ref());
+            let keeper = ctx.w.keeper;
+            let closer = if rng.bool() { keeper } else { user };
+            if ctx.w.close_glv_deposit(closer, d).is_err() {
+                m.count("glv_deposit_close_failed");
+            }
+        }
+    }
+    // Often lift the caps again so that the history keeps moving.
+    if rng.chance(1, 2) {
+        let _ = ctx.w.update_glv_market_config(&glv, mt, Some(0), Some(0));
+        ctx.note(format!("update_glv_market_config market={mi} max_amount=0 max_value=0"));
+    }
+}
+
+/// Oracle 2.
+fn check_caps_after_deposit(ctx: &mut Ctx, m: &mut Monitor, mi: usize, plan: &DepositPlan, expect: Option<bool>) {
+    let mt = ctx.w.markets[mi].market_token;
+    let Some(g) = ctx.w.load_glv(&ctx.glv.glv) else {
+        return;
+    };
+    let Some(cfg) = g.market_config(&mt) else {
+        m.violation("C45:execute_glv_deposit:market_not_listed_after_deposit", ctx.witness(json!({"market": mi})));
+        return;
+    };
+    let (bal, max_amount, max_value) = (cfg.balance(), cfg.max_amount(), cfg.max_value());
+    m.eval();
+    let mut sig = format!("cap:{bal}:{max_amount}:{max_value}");
+    if max_amount == 0 && max_value == 0 {
+        m.count("caps_unset_after_deposit");
+        return;
+    }
+    if max_amount > 0 {
+        m.count("cap_max_amount_checked");
+        if bal == max_amount {
+            m.count("cap_max_amount_exactly_reached");
+        }
+        if bal > max_amount {
+            m.violation(
+                "C45:execute_glv_deposit:balance_exceeds_max_amount",
+                ctx.witness(json!({"market": mi, "balance": bal.to_string(), "max_amount": max_amount.to_string(), "plan": format!("{plan:?}")})),
+            );
+        }
+    }
+    if max_value > 0 {
+        let mut w2 = ctx.w.clone();
+        match pv(ctx, &mut w2, mi, true, m) {
+            None => m.count("cap_max_value_unchecked_pool_value_unavailable"),
+            Some(p) => match p.value(bal) {
+                None => m.count("cap_max_value_negative_pool_value_or_zero_supply"),
+                Some(v) => {
+                    m.count("cap_max_value_checked");
+                    sig.push_str(&format!(":{v}"));
+                    if v == b(max_value) {
+                        m.count("cap_max_value_exactly_reached");
+                    }
+                    if v > b(max_value) {
+                        m.violation(
+                            "C45:execute_glv_deposit:balance_value_exceeds_max_value",
+                            ctx.witness(json!({
+                                "market": mi, "balance": bal.to_string(), "max_value": max_value.to_string(),
+                                "value_maximized_max_after_deposit": v.to_string(), "pool_value": p.p.to_string(), "supply": p.s.to_string(),
+                                "plan": format!("{plan:?}"),
+                            })),
+                        );
+                    }
+                }
+            },
+        }
+    }
+    if expect == Some(false) {
+        // The recomputation said the cap binds, the program executed: the checks above decide.
+        m.count("boundary_cap_expected_to_bind_but_executed");
+    }
+    m.nontrivial(sig.as_bytes());
+}
+
+/// Oracle 3a (deposit side): the vault value used equals the independently recomputed maximized value
+/// (pre-deposit balances, pools as valued by the program i.e. after the market-level deposit).
+fn check_deposit_valuation(ctx: &mut Ctx, m: &mut Monitor, mi: usize, pre_bal: &BTreeMap<usize, u64>, ev: Option<&GlvPricing>) {
+    let Some(ev) = ev else {
+        m.count("glv_deposit_executed_without_pricing_event");
+        m.inconclusive("executed GLV deposit without a GlvPricing event");
+        return;
+    };
+    m.eval();
+    if !ev.is_value_maximized {
+        m.violation(
+            "C45:execute_glv_deposit:pricing_event_not_maximized",
+            ctx.witness(json!({"market": mi, "event_value": ev.value.to_string()})),
+        );
+    }
+    let mut w2 = ctx.w.clone();
+    let vmax = glv_value(ctx, &mut w2, pre_bal, true, m);
+    let vmin = glv_value(ctx, &mut w2, pre_bal, false, m);
+    let Some(vmax) = vmax else {
+        m.count("valuation_deposit_unchecked");
+        return;
+    };
+    m.count("valuation_deposit_checked");
+    let distinguishing = vmin.as_ref().map(|v| *v != vmax).unwrap_or(false);
+    if distinguishing {
+        m.count("valuation_deposit_checked_max_differs_from_min");
+        m.nontrivial(format!("vdep:{}:{}", vmax, ev.supply).as_bytes());
+    }
+    if b(ev.value) != vmax {
+        let class = if ctx.touched_by_orders.iter().any(|x| *x) { "with_positions" } else { "no_positions" };
+        m.violation(
+            &format!("C45:execute_glv_deposit:vault_not_valued_at_maximized_value:{class}"),
+            ctx.witness(json!({
+                "market": mi, "value_used": ev.value.to_string(), "recomputed_maximized": vmax.to_string(),
+                "recomputed_minimized": vmin.map(|v| v.to_string()), "pre_balances": format!("{pre_bal:?}"), "glv_supply": ev.supply.to_string(),
+            })),
+        );
+    }
+}
+
+fn op_glv_withdrawal(ctx: &mut Ctx, rng: &mut Rng, m: &mut Monitor) {
+    let listed = ctx.glv_markets(&ctx.w);
+    if listed.is_empty() {
+        return;
+    }
+    let ui = rng.below(ctx.users.len() as u64) as usize;
+    let user = ctx.users[ui];
+    let have = token::token_amount(&ctx.w.svm, &ata22(&user, &ctx.glv.glv_token)).unwrap_or(0);
+    if have == 0 {
+        m.count("glv_withdrawal_skipped_no_glv_tokens");
+        return;
+    }
+    let bals = balances_of(ctx, &ctx.w);
+    let with_bal: Vec<usize> = listed.iter().copied().filter(|i| bals.get(i).copied().unwrap_or(0) > 0).collect();
+    let mi = if !with_bal.is_empty() && rng.chance(9, 10) { *rng.pick(&with_bal) } else { *rng.pick(&listed) };
+    let amount = match rng.below(5) {
+        0 => have,
+        1 => rng.range(1, 3).min(have),
+        2 => have / 2,
+        _ => rng.log_u64(have).max(1),
+    }
+    .max(1);
+    m.count("op_glv_withdrawal");
+    let glv = ctx.glv;
+    let desc = format!("glv_withdrawal user{ui} market={mi} glv_amount={amount}");
+    let wd = match ctx.w.create_glv_withdrawal(user, &glv, mi, amount, 0, 0) {
+        Ok(x) => x,
+        Err((e, _)) => {
+            m.count(&format!("glv_withdrawal_create_failed_{}", err_class(&e)));
+            ctx.note(format!("{desc} -> create failed {}", err_class(&e)));
+            return;
+        }
+    };
+    let pre = ctx.w.clone();
+    let throw = rng.chance(3, 4);
+    match ctx.w.execute_glv_withdrawal(wd, throw) {
+        Err((e, _)) => {
+            m.count(&format!("glv_withdrawal_execute_failed_{}", err_class(&e)));
+            ctx.note(format!("{desc} -> execute failed {}", err_class(&e)));
+            let r = ctx.w.close_glv_withdrawal(user, wd);
+            m.count(if r.is_ok() { "glv_withdrawal_cancelled_by_owner" } else { "glv_withdrawal_cancel_failed" });
+        }
+        Ok(meta) => {
+            let done = ctx.w.glv_withdrawal_state(&wd) == Some(ActionState::Completed);
+            if done {
+                m.count("glv_withdrawal_executed");
+                let ev = pricing_event(&meta, false);
+                ctx.note(format!(
+                    "{desc} -> executed {}",
+                    ev.as_ref().map(|e| format!("burnt_glv={} market_tokens_out={} value={} in_value={} supply={}", e.input_amount, e.output_amount, e.value, e.input_value, e.supply)).unwrap_or_default()
+                ));
+                check_composition(ctx, &ctx.w, m, "execute_glv_withdrawal");
+                check_withdrawal_valuation(ctx, m, mi, pre, ev.as_ref());
+            } else {
+                m.count("glv_withdrawal_cancelled_on_execution_error");
+                ctx.note(format!("{desc} -> cancelled"));
+            }
+            let keeper = ctx.w.keeper;
+            let closer = if rng.bool() { keeper } else { user };
+            if ctx.w.close_glv_withdrawal(closer, wd).is_err() {
+                m.count("glv_withdrawal_close_failed");
+            }
+        }
+    }
+}
+
+/// Oracle 3a (withdrawal side): the vault value used equals the independently recomputed minimized
+/// value of the pre-state.
+fn check_withdrawal_valuation(ctx: &mut Ctx, m: &mut Monitor, mi: usize, mut pre: World, ev: Option<&GlvPricing>) {
+    let Some(ev) = ev else {
+        m.count("glv_withdrawal_executed_without_pricing_event");
+        m.inconclusive("executed GLV withdrawal without a GlvPricing event");
+        return;
+    };
+    m.eval();
+    if ev.is_value_maximized {
+        m.violation(
+            "C45:execute_glv_withdrawal:pricing_event_maximized",
+            ctx.witness(json!({"market": mi, "event_value": ev.value.to_string()})),
+        );
+    }
+    let pre_bal = balances_of(ctx, &pre);
+    let vmin = glv_value(ctx, &mut pre, &pre_bal, false, m);
+    let vmax = glv_value(ctx, &mut pre, &pre_bal, true, m);
+    let Some(vmin) = vmin else {
+        m.count("valuation_withdrawal_unchecked");
+        return;
+    };
+    m.count("valuation_withdrawal_checked");
+    if vmax.as_ref().map(|v| *v != vmin).unwrap_or(false) {
+        m.count("valuation_withdrawal_checked_max_differs_from_min");
+        m.nontrivial(format!("vwd:{}:{}", vmin, ev.supply).as_bytes());
+    }
+    if b(ev.value) != vmin {
+        let class = if ctx.touched_by_orders.iter().any(|x| *x) { "with_positions" } else { "no_positions" };
+        m.violation(
+            &format!("C45:execute_glv_withdrawal:vault_not_valued_at_minimized_value:{class}"),
+            ctx.witness(json!({
+                "market": mi, "value_used": ev.value.to_string(), "recomputed_minimized": vmin.to_string(),
+                "recomputed_maximized": vmax.map(|v| v.to_string()), "pre_balances": format!("{pre_bal:?}"), "glv_supply": ev.supply.to_string(),
+            })),
+        );
+    }
+}
+
+/// Oracle 3b: the twin experiment on a clone of the world.
+fn op_twin(ctx: &mut Ctx, rng: &mut Rng, m: &mut Monitor) {
+    let mut tw = ctx.w.clone();
+    let Some(plan) = plan_deposit(ctx, &tw, rng) else {
+        return;
+    };
+    m.count("op_twin_roundtrip");
+    let mi = plan.market;
+    let user = ctx.users[plan.user];
+    let supply0 = glv_supply(ctx, &tw);
+    let bal0 = balances_of(ctx, &tw);
+    let residual: u128 = bal0.values().map(|x| *x as u128).sum();
+    let desc = format!("twin user{} market={mi} mt={} long={} short={}", plan.user, plan.mt_amount, plan.long, plan.short);
+    let glv = ctx.glv;
+    let (meta, d) = match run_deposit(&glv, user, &mut tw, &plan, true) {
+        Exec::Executed(meta, d) => (meta, d),
+        Exec::NotCreated(e) => {
+            m.count(&format!("twin_deposit_not_created_{}", err_class(&e)));
+            return;
+        }
+        Exec::Failed(e, _) => {
+            m.count(&format!("twin_deposit_failed_{}", err_class(&e)));
+            return;
+        }
+        Exec::Cancelled(..) => {
+            m.count("twin_deposit_cancelled");
+            return;
+        }
+    };
+    let Some(dep) = pricing_event(&meta, true) else {
+        m.inconclusive("twin: executed deposit without pricing event");
+        return;
+    };
+    let glv_before = token::token_amount(&tw.svm, &ata22(&user, &ctx.glv.glv_token)).unwrap_or(0);
+    if tw.close_glv_deposit(user, d).is_err() {
+        m.count("twin_close_deposit_failed");
+        return;
+    }
+    let glv_after = token::token_amount(&tw.svm, &ata22(&user, &ctx.glv.glv_token)).unwrap_or(0);
+    let minted = dep.output_amount;
+    if glv_after - glv_before != minted {
+        m.count("twin_minted_amount_differs_from_event");
+        m.inconclusive("twin: GLV tokens received differ from the pricing event's output amount");
+        return;
+    }
+    m.eval();
+    m.count("twin_deposit_executed");
+    if minted == 0 {
+        // Nothing to withdraw: the round trip returns nothing.
+        m.count("twin_zero_glv_minted");
+        return;
+    }
+    // State s1 = right after the deposit. Same-state comparison of the values used (3a, ordering).
+    if rng.chance(1, 2) {
+        same_state_values(ctx, m, &tw, mi, plan.user);
+    }
+    let wd = match tw.create_glv_withdrawal(user, &glv, mi, minted, 0, 0) {
+        Ok(x) => x,
+        Err((e, _)) => {
+            m.count(&format!("twin_withdrawal_not_created_{}", err_class(&e)));
+            return;
+        }
+    };
+    let meta2 = match tw.execute_glv_withdrawal(wd, true) {
+        Ok(x) => x,
+        Err((e, _)) => {
+            m.count(&format!("twin_withdrawal_failed_{}", err_class(&e)));
+            return;
+        }
+    };
+    let Some(wev) = pricing_event(&meta2, false) else {
+        m.inconclusive("twin: executed withdrawal without pricing event");
+        return;
+    };
+    m.count("twin_roundtrip_completed");
+    let (put_in, taken_out) = (dep.input_amount, wev.output_amount);
+    if taken_out > 0 {
+        m.count("twin_roundtrip_nontrivial");
+        m.nontrivial(format!("twin:{put_in}:{minted}:{taken_out}").as_bytes());
+    }
+    if taken_out == put_in {
+        m.count("twin_roundtrip_returned_exactly_the_deposit");
+    }
+    if supply0 == 0 {
+        m.count("twin_on_empty_glv_supply");
+    }
+    if taken_out > put_in {
+        let class = if supply0 == 0 && residual > 0 {
+            ":glv_supply_zero_with_residual_balance"
+        } else if ctx.touched_by_orders[mi] && ctx.dep_cap_below_wd_cap[mi] {
+            ":deposit_pnl_cap_below_withdrawal_cap"
+        } else {
+            ""
+        };
+        ctx.note(format!("{desc} -> deposited {put_in} market tokens, minted {minted}, withdrawal burnt {taken_out}"));
+        m.violation(
+            &format!("C45:glv_roundtrip:more_market_tokens_returned{class}"),
+            ctx.witness(json!({
+                "plan": format!("{plan:?}"),
+                "market_tokens_deposited_total": put_in.to_string(),
+                "glv_minted": minted.to_string(),
+                "market_tokens_withdrawn": taken_out.to_string(),
+                "glv_supply_before": supply0.to_string(),
+                "balances_before": format!("{bal0:?}"),
+                "deposit_event": {"value": dep.value.to_string(), "input_value": dep.input_value.to_string(), "supply": dep.supply.to_string()},
+                "withdrawal_event": {"value": wev.value.to_string(), "input_value": wev.input_value.to_string(), "supply": wev.supply.to_string()},
+            })),
+        );
+    }
+}
+
+/// On one state `s`: value used by a (1-unit, market-token-only) deposit vs value used by a withdrawal.
+fn same_state_values(ctx: &mut Ctx, m: &mut Monitor, s: &World, mi: usize, ui: usize) {
+    let user = ctx.users[ui];
+    let have_glv = token::token_amount(&s.svm, &ata22(&user, &ctx.glv.glv_token)).unwrap_or(0);
+    let have_mt = token::token_amount(&s.svm, &token::ata(&user, &s.markets[mi].market_token)).unwrap_or(0);
+    if have_glv == 0 || have_mt == 0 {
+        m.count("same_state_skipped");
+        return;
+    }
+    let mut a = s.clone();
+    let plan = DepositPlan { user: ui, market: mi, mt_amount: 1, long: 0, short: 0 };
+    // Caps must not interfere with the probe.
+    let glv = ctx.glv;
+    let mt = a.markets[mi].market_token;
+    let _ = a.update_glv_market_config(&glv, mt, Some(0), Some(0));
+    let dep = match run_deposit(&glv, user, &mut a, &plan, true) {
+        Exec::Executed(meta, _) => pricing_event(&meta, true),
+        _ => None,
+    };
+    let mut c = s.clone();
+    let wdv = match c.create_glv_withdrawal(user, &glv, mi, 1.min(have_glv), 0, 0) {
+        Ok(wd) => c.execute_glv_withdrawal(wd, true).ok().and_then(|meta| pricing_event(&meta, false)),
+        Err(_) => None,
+    };
+    let (Some(dep), Some(wdv)) = (dep, wdv) else {
+        m.count("same_state_probe_failed");
+        return;
+    };
+    m.eval();
+    m.count("same_state_values_compared");
+    if dep.value > wdv.value {
+        m.count("same_state_deposit_value_strictly_above_withdrawal_value");
+        m.nontrivial(format!("same:{}:{}", dep.value, wdv.value).as_bytes());
+    } else if dep.value == wdv.value {
+        m.count("same_state_values_equal");
+    } else {
+        m.violation(
+            "C45:glv_pricing:deposit_value_below_withdrawal_value_on_same_state",
+            ctx.witness(json!({"market": mi, "value_used_by_deposit": dep.value.to_string(), "value_used_by_withdrawal": wdv.value.to_string()})),
+        );
+    }
+}
+
+fn op_shift(ctx: &mut Ctx, rng: &mut Rng, m: &mut Monitor) {
+    let listed = ctx.glv_markets(&ctx.w);
+    if listed.len() < 2 {
+        return;
+    }
+    let bals = balances_of(ctx, &ctx.w);
+    let with_bal: Vec<usize> = listed.iter().copied().filter(|i| bals.get(i).copied().unwrap_or(0) > 0).collect();
+    if with_bal.is_empty() {
+        return;
+    }
+    let from = *rng.pick(&with_bal);
+    let to = *rng.pick(&listed);
+    let bal = bals[&from];
+    let amount = match rng.below(4) {
+        0 => bal,
+        1 => bal / 2,
+        _ => rng.log_u64(bal),
+    }
+    .max(1);
+    m.count("op_glv_shift");
+    let glv = ctx.glv;
+    let desc = format!("glv_shift from={from} to={to} amount={amount}");
+    let sh = match ctx.w.create_glv_shift(&glv, from, to, amount, 0) {
+        Ok(x) => x,
+        Err((e, _)) => {
+            m.count(&format!("glv_shift_create_failed_{}", err_class(&e)));
+            ctx.note(format!("{desc} -> create failed {}", err_class(&e)));
+            return;
+        }
+    };
+    if rng.chance(1, 10) {
+        let r = ctx.w.close_glv_shift(sh);
+        m.count(if r.is_ok() { "glv_shift_cancelled_by_keeper" } else { "glv_shift_cancel_failed" });
+        ctx.note(format!("{desc} -> cancelled by keeper"));
+        return;
+    }
+    let throw = rng.chance(3, 4);
+    match ctx.w.execute_glv_shift(sh, throw) {
+        Err((e, _)) => {
+            m.count(&format!("glv_shift_execute_failed_{}", err_class(&e)));
+            ctx.note(format!("{desc} -> execute failed {}", err_class(&e)));
+        }
+        Ok(_) => {
+            if ctx.w.glv_shift_state(&sh) == Some(ActionState::Completed) {
+                m.count("glv_shift_executed");
+                ctx.note(format!("{desc} -> executed"));
+            } else {
+                m.count("glv_shift_cancelled_on_execution_error");
+                ctx.note(format!("{desc} -> cancelled"));
+            }
+            check_composition(ctx, &ctx.w, m, "execute_glv_shift");
+        }
+    }
+    if ctx.w.close_glv_shift(sh).is_err() {
+        m.count("glv_shift_close_failed");
+    }
+}
+
+// ------------------------------------------------------------------------------------------------
+
+fn shard(args: &Args, shard: u64, m: &mut Monitor) {
+    let mut rng = Rng::derive(args.seed, shard, 45);
+    let mut ctx = build(shard, &mut rng, m);
+    m.count("worlds");
+    let steps = args.scale(70, 110);
+    // op weights: insert, remove, caps, toggle, glv config, prices, activity, deposit, withdrawal, twin, shift
+    let weights = [7u32, 2, 5, 2, 2, 8, 6, 26, 12, 22, 8];
+    for s in 0..steps {
+        ctx.step = s + 1;
+        match rng.weighted(&weights) {
+            0 => op_insert(&mut ctx, &mut rng, m),
+            1 => op_remove(&mut ctx, &mut rng, m),
+            2 => op_caps(&mut ctx, &mut rng, m),
+            3 => op_toggle(&mut ctx, &mut rng, m),
+            4 => op_glv_config(&mut ctx, &mut rng, m),
+            5 => op_prices(&mut ctx, &mut rng, m),
+            6 => op_market_activity(&mut ctx, &mut rng, m),
+            7 => op_glv_deposit(&mut ctx, &mut rng, m),
+            8 => op_glv_withdrawal(&mut ctx, &mut rng, m),
+            9 => op_twin(&mut ctx, &mut rng, m),
+            _ => op_shift(&mut ctx, &mut rng, m),
+        }
+        if m.has_violations() && ctx.hist.len() > 400 {
+            break;
+        }
+    }
+    if m.wants_sample() {
+        m.sample(json!({
+            "shard": shard,
+            "glv": format!("{}/{}", TOKENS[ctx.gl].0, TOKENS[ctx.gs].0),
+            "markets": ctx.w.markets.iter().map(|x| x.name.clone()).collect::<Vec<_>>(),
+            "final_glv_state": glv_state_json(&ctx, &ctx.w),
+            "last_ops": ctx.hist.iter().rev().take(12).rev().cloned().collect::<Vec<_>>(),
+        }));
+    }
+    m.add("transactions_ok", ctx.w.svm.tx_ok);
+    m.add("transactions_failed", ctx.w.svm.tx_err);
+}
+
+pub fn run(args: &Args) -> Option<i32> {
+    let mut mon = Monitor::new(
+        args,
+        "one shard = one random world (2-4 markets with the GLV's long/short tokens, 1-3 with other tokens, random \
+         funding, prices with bid<ask spreads, optionally positions and per-market PnL caps) and a random history of \
+         real GLV instructions in hostsvm; a case is one oracle-checked observation: (i) insert_glv_market / \
+         initialize_glv with a market whose tokens differ, (ii) an executed GLV deposit with a max amount / max value \
+         configured (value recomputed independently), (iii) the vault value used by an executed deposit / withdrawal \
+         vs the independently recomputed maximized / minimized value, (iv) a twin deposit-then-withdraw-everything \
+         round trip on a cloned world. Non-trivial: (i) rejected mismatching market, (ii) a cap > 0 was in force, (iii) \
+         maximized != minimized value, (iv) the round trip burnt > 0 market tokens. distinct_nontrivial hashes the \
+         observation's content (kind + amounts / values / caps)",
+    );
+    mon.assume("prices are multiples of the token's configured precision tick and fit the u32 price mantissa, so the feed conversion is exact");
+    mon.assume("no swap paths and no virtual inventories in GLV actions; GLV deposits pay in the market's own long / short tokens");
+    mon.assume("max-value recomputation follows the program's definition: balance * pool_value(MaxAfterDeposit, maximize=true) / supply (floor), pools after the deposit");
+    let n_shards = args.scale(64, 1600);
+    let quiet = hostsvm::QuietStdout::new();
+    run_shards(&mut mon, args.threads, n_shards, |i, m| shard(args, i, m));
+    drop(quiet);
+    mon.require("worlds", n_shards / 2);
+    mon.require("insert_mismatching_rejected", 20);
+    mon.require("init_mixed_list_rejected", 10);
+    mon.require("glv_deposit_executed", 200);
+    mon.require("cap_max_amount_checked", 30);
+    mon.require("cap_max_value_checked", 30);
+    mon.require("valuation_deposit_checked_max_differs_from_min", 50);
+    mon.require("valuation_withdrawal_checked_max_differs_from_min", 30);
+    mon.require("twin_roundtrip_nontrivial", 100);
+    mon.require("same_state_values_compared", 30);
+    mon.set_extra(
+        "not_covered",
+        json!([
+            "GLV actions with swap paths / virtual inventories",
+            "cross-market round trips (deposit into one market, withdraw from another) are not judged: the property compares market-token counts of one market",
+            "GLV shift is driven for coverage and the composition invariant only (the property states no cap / pricing rule for shifts)",
+        ]),
+    );
+    Some(mon.finish())
 }
